@@ -46,7 +46,26 @@ def gen(rng):
             "timeout": rng.choice([10 ** 6, 10 ** 6, 2]), "workers": rng.choice([1, 2])}
 
 
+RERUNS = 30
+
+
 def execute(p, chooser):
+    """one run; when its lock-acquisition graph (over lock instances) has a cycle - a potential deadlock - the same
+    scenario is run again under further schedules, and the first run that really deadlocks is the one reported"""
+    import zlib
+    r, obs = run_once(p, chooser)
+    if not (r.deadlock or r.hang) and r.exc is None and lock_cycles(r.log):
+        h = zlib.crc32(repr(sorted(p.items())).encode()) & 0xfffffff
+        for k in range(RERUNS):
+            r2, obs2 = run_once(p, det.make_chooser(("random", "pct", "random")[k % 3], h + k))
+            if r2.deadlock or r2.hang:
+                obs2["rerun"] = k
+                return r2, obs2
+        obs["cycle_reruns"] = RERUNS
+    return r, obs
+
+
+def run_once(p, chooser):
     from more_executors import Executors
     from more_executors.futures import f_return
     obs = {"params": p, "nested_returned": 0, "nested_started": 0, "ops_done": 0, "ops_total": sum(len(x) for x in p["progs"])}
@@ -105,8 +124,8 @@ def execute(p, chooser):
         failn = {"n": 0}
 
         def plain():
-            if p["fail"] and failn["n"] == 0:
-                failn["n"] = 1
+            failn["n"] += 1
+            if p["fail"] and failn["n"] % 2 == 1:
                 raise KeyError("x")
             return 1
 
@@ -136,6 +155,17 @@ def execute(p, chooser):
                             futs[-1].add_done_callback(lambda f: None)
                         elif op == "addcb_nested" and futs:
                             futs[-1].add_done_callback(lambda f: nested())
+                        elif op == "addcb_nested_wait" and futs:
+                            def cbw(f):
+                                obs["nested_wait"] = "started"
+                                try:
+                                    box["top"].submit(lambda: 7).result(40)
+                                    obs["nested_wait"] = "returned"
+                                except RuntimeError:
+                                    obs["nested_wait"] = "refused"
+                                except Exception as e:
+                                    obs["nested_wait"] = type(e).__name__
+                            futs[-1].add_done_callback(cbw)
                         elif op == "result" and futs:
                             try:
                                 futs[0].result(50)
@@ -220,6 +250,9 @@ def monitor(r, obs):
     for (nm, dn, e) in r.threads:
         if e is not None:
             out.append({"what": "thread %s died with %s" % (nm, e), "detail": nm, "pattern": "deadlock:thread-died"})
+    if obs.get("nested_wait") == "TimeoutError":
+        out.append({"what": "a done-callback that submitted again and waited for the nested future got %s: the nested work could not run "
+                            "although a worker was free" % obs["nested_wait"], "detail": str(p), "pattern": "deadlock:nested-wait"})
     if obs["nested_started"] != obs["nested_returned"]:
         out.append({"what": "a nested submit did not return", "detail": str(p), "pattern": "deadlock:nested"})
     return out
